@@ -451,6 +451,17 @@ Section Erase.
       + rewrite E_as_index. destruct (as_index k); [apply py_index_map|reflexivity].
   Qed.
 
+  Lemma assoc_filter_keep k (l : list (str * val)) :
+    keep k = true ->
+    assoc k (List.filter (fun kv => keep (fst kv)) l) = assoc k l.
+  Proof.
+    intro Hk. induction l as [|[k' v] l IH]; [reflexivity|].
+    cbn [List.filter fst]. destruct (keep k') eqn:Ek'; cbn [assoc].
+    - destruct (str_eqb k k'); [reflexivity|exact IH].
+    - destruct (str_eqb k k') eqn:Ekk; [|exact IH].
+      apply str_eqb_eq in Ekk. subst. congruence.
+  Qed.
+
   (** *** string conversions *)
   Lemma E_py_repr v : py_repr (E v) = py_repr v.
   Proof.
@@ -463,6 +474,9 @@ Section Erase.
                  (fun kv => do rk <- repr_key (fst kv);; do r <- py_repr (snd kv);;
                             Ok (rk ++ lit ": " ++ r))); [reflexivity|].
       eapply Forall_impl; [|exact H]. intros [k v] Hv. simpl in *. rewrite Hv. reflexivity.
+    - rewrite E_obj. cbn [py_repr]. destruct (o_loop h); [reflexivity|].
+      rewrite assoc_filter_keep by (apply keep_hooks; reflexivity).
+      rewrite assoc_map_snd. destruct (assoc (lit "__repr__") attrs) as [[]|]; reflexivity.
   Qed.
 
   Lemma E_to_liquid_string v : to_liquid_string (E v) = to_liquid_string v.
@@ -889,17 +903,6 @@ Section Erase.
   Qed.
 
   (** *** The hook sites *)
-  Lemma assoc_filter_keep k (l : list (str * val)) :
-    keep k = true ->
-    assoc k (List.filter (fun kv => keep (fst kv)) l) = assoc k l.
-  Proof.
-    intro Hk. induction l as [|[k' v] l IH]; [reflexivity|].
-    cbn [List.filter fst]. destruct (keep k') eqn:Ek'; cbn [assoc].
-    - destruct (str_eqb k k'); [reflexivity|exact IH].
-    - destruct (str_eqb k k') eqn:Ekk; [|exact IH].
-      apply str_eqb_eq in Ekk. subst. congruence.
-  Qed.
-
   Lemma E_obj_attr v k : is_hook k = true -> obj_attr (E v) k = option_map E (obj_attr v k).
   Proof.
     intro Hk. destruct v; try reflexivity. rewrite E_obj. cbn [obj_attr].
@@ -1572,3 +1575,17 @@ Example noninterference_nonvacuous :
   /\ render false ex_prog d = Ok (lit "T|,|2,512")
   /\ render false ex_prog d' = Ok (lit "T|,|2,512").
 Proof. vm_compute. repeat split. discriminate. Qed.
+
+(** {{ d }} for a dict holding an object: str(dict) shows repr(obj). *)
+Definition w_repr : list stmt :=
+  [SOut {| e_left := EPath (lit "d") []; e_filters := [] |}].
+
+Theorem repr_reachable_refuted :
+  exists d d', proto_eq d d' /\ hook_free_ns d' = true
+               /\ render false w_repr d = Ok (lit "{'k': O(secret='S3CR3T')}")
+               /\ render false w_repr d' = Ok (lit "{'k': P#1}").
+Proof.
+  exists [(lit "d", VDict [(lit "k", plain_obj 1 [(lit "__repr__", VCallable (lit "O(secret='S3CR3T')"))])])],
+         [(lit "d", VDict [(lit "k", plain_obj 1 [(lit "secret", VStr (lit "S3CR3T"))])])].
+  repeat split.
+Qed.
